@@ -62,7 +62,10 @@ P = {
  "C08": ("Theorem C08_all_histories (closed): for every tracking oracle, triple, in-range request differing from the held value, retry count and "
          "every finite history of timer expiries and controller reports, the outputs of the set-call model satisfy the monitor of the property "
          "(requested value only, at most `retries` transmissions, one per expiry, refresh iff not tracking, True only after a differing report, False "
-         "only after `retries` unconfirmed transmissions) - by a simulation invariant; real Number/Switch objects run the same histories under the "
+         "only after `retries` unconfirmed transmissions) - by a simulation invariant; C08_hop_refines / C08_hop: a finer model in which controller "
+         "reports are handled INSIDE a transmission step (while the request is being built in the thread pool) equals the coarse model on the history "
+         "with those reports right after the step, so the monitor accepts those histories too (C08_hop_late_refuted: reading the value after the "
+         "suspension instead makes a request carry the old value); real Number/Switch objects run the same histories under the "
          "virtual-time loop and are compared point by point.",
          "partial for scheduling: the order in which a report and a timer expiring at the same instant are served is chosen by the harness (both orders generated)."),
  "C15": ("Theorems C15_refines (for every set of unsupported kinds and every history of announcements over request kinds and unknown codes, the "
@@ -111,9 +114,10 @@ P = {
  "C12": ("Theorem C12_terminates (closed): for every state (connected or not, any number of queued / unprocessed frames, silent or talking "
          "controller, reconnect chain pending or not, any pending tasks of devices, mixers and thermostats with any indexes) the close() model "
          "returns within the drain bound (20 s) + transport close timeout, leaves no task pending and the transport closed; C12_cancel_all (every "
-         "registered live task is cancelled whatever finished tasks are still registered and in whatever order the set is walked); five refutation "
-         "theorems show each pinned behaviour (unbounded join, device shutdown only when connected, index-merged sub-devices, short-circuiting "
-         "cancel_tasks, tasks cancelled only before the shutdown) violates it. Real "
+         "registered live task is cancelled whatever finished tasks are still registered and in whatever order the set is walked); the transport may "
+         "confirm its closing after any delay or never (the wait is bounded by the 10 s write timeout and its time-out is absorbed); six refutation "
+         "theorems show each pinned / seeded behaviour (unbounded join, device shutdown only when connected, index-merged sub-devices, short-circuiting "
+         "cancel_tasks, tasks cancelled only before the shutdown, close-wait time-out escaping) violates it. Real "
          "Connection.close() is issued at the end of every prefix of generated histories under the virtual-time loop (quiescent deadlock "
          "detection), observing return, duration, asyncio.all_tasks() afterwards and transport close calls.",
          "partial: the model maps the state read from the implementation just before close() to the outcome; it does not model the interleaving "
@@ -136,11 +140,12 @@ P = {
          "delimiter the clause is refuted in Coq (C14_resync_refuted) and recorded as known finding D16; implementation checked for P14 and for "
          "the resync bound on every generated run.",
          "the resynchronisation clause holds (proved) for frames without an interior 0x68 and is a known finding (D16) otherwise. "
-         "Producer-loop survival is checked under C09."),
+         "Producer-loop survival: `producer` sessions through the real AsyncProtocol here, undecodable payloads under C09."),
  "C20": ("Theorems over all finite call sequences (induction, closed): C20_on_change, C20_debounce, C20_throttle (deliveries are exactly those the "
          "monitor of the promise allows, values unmodified and in order), C20_throttle_gaps (consecutive deliveries at least the interval apart), "
          "C20_delta (delivered differences sum to last baseline - first value, current value within tolerance of the baseline), C20_aggregate "
-         "(delivered sums + pending remainder = sum of inputs), C20_chain (the inner filter of a chain sees exactly the outer filter's deliveries); "
+         "(delivered sums + pending remainder = sum of inputs), C20_aggregate_mixed (for ALL sequences: refused strings / lists are no inputs - the "
+         "deliveries and the final state are those of the numeric calls alone), C20_chain (the inner filter of a chain sees exactly the outer filter's deliveries); "
          "real filters run the same sequences with time.monotonic patched, compared delivery by delivery.",
          "numbers are integers on the grid 2^-60 (multiples of 1/64 of bounded magnitude, and the doubles 0.05, 0.1, 0.2 ... so that a difference of "
          "exactly one tolerance - the double 0.1 - is expressible); on the generated values CPython float arithmetic and isclose agree with exact "
